@@ -188,3 +188,15 @@ func FamilyScenario(family string, seed int64, i, blocks, maxTx int) *Scenario {
 	}
 	panic("unknown family " + family)
 }
+
+// FamilyKinds lists the transaction kinds a family draws from.
+func FamilyKinds(family string) []string {
+	switch family {
+	case "base", "benign":
+		return BaseKinds
+	}
+	if k := familyKindsExt(family); k != nil {
+		return k
+	}
+	return BaseKinds
+}
